@@ -443,11 +443,11 @@ class Generator:
                 cur = ("loop", int(ln.split()[1]))
                 sec["loop"].setdefault(cur[1], [])
                 continue
-            if ln.startswith("@at"):
-                m = re.match(r"@at\s+(\d+)\s+/(.*)/\s*$", ln)
+            if ln.startswith("@at") or ln.startswith("@before"):
+                m = re.match(r"@(at|before)\s+(\d+)\s+/(.*)/\s*$", ln)
                 if not m:
-                    raise GenError(f"{rel}:{lno}: malformed @at")
-                sec["at"].append([int(m.group(1)), m.group(2), [], lno])
+                    raise GenError(f"{rel}:{lno}: malformed @at/@before")
+                sec["at"].append([int(m.group(2)), m.group(3), [], lno, m.group(1)])
                 cur = ("at", len(sec["at"]) - 1)
                 continue
             if ln.startswith("@arm"):
@@ -579,11 +579,11 @@ class Generator:
                 piece.replace(tuple(arms[0]["body"]), new, "R6-arm")
             # proof hints anchored after the n-th occurrence of a literal piece of the body text
             body_txt0 = src.text[body_s:body_e].decode()
-            for (nth, lit, pairs, l) in sec["at"]:
+            for (nth, lit, pairs, l, where) in sec["at"]:
                 idxs = [m.start() for m in re.finditer(re.escape(lit), body_txt0)]
                 if len(idxs) < nth or nth < 1:
-                    raise GenError(f"{rel}:{l}: anchor lost: @at target /{lit}/ occurrence {nth} not found in fn {name}")
-                boff = body_s + len(body_txt0[:idxs[nth - 1] + len(lit)].encode())
+                    raise GenError(f"{rel}:{l}: anchor lost: @{where} target /{lit}/ occurrence {nth} not found in fn {name}")
+                boff = body_s + len(body_txt0[:idxs[nth - 1] + (len(lit) if where == "at" else 0)].encode())
                 if pairs:
                     piece.insert(boff, "\n" + self.join_lines(pairs) + "\n", "hint", order=2, spec_line=(rel, pairs[0][1] - 1))
             # declared literal rewrites inside the body
